@@ -123,6 +123,8 @@ def req_print(pd, sd, t):
 
 def conclude(ctx, search=None):
     """DESIGN §6.3: anything broken and no failing input yet ⇒ search harder; still none ⇒ no-failing-input-found"""
+    import hazards
+    hazards.check(ctx)          # the requests of the correspondence streams once more, each after the neighbours a wrongly keyed memory would confuse it with
     if ctx.broken and not ctx.violations and search is not None:
         search(ctx)
     if ctx.broken and not ctx.violations:
